@@ -65,15 +65,23 @@ def _case(draw, fams):
        "eigh": draw(st.booleans()), "eps": draw(st.sampled_from([1e-2, 1e-3, 1e-4])),
        "beta2": draw(st.sampled_from([0.9, 0.99, 1.0])), "beta1": draw(st.sampled_from([0.0, 0.9])),
        "start": draw(st.sampled_from([0, 1])), "nesterov": draw(st.booleans()),
-       "ptype": draw(st.sampled_from(["ALL", "ALL", "INPUT", "OUTPUT"]))}
+       "ptype": draw(st.sampled_from(["ALL", "ALL", "INPUT", "OUTPUT"])),
+       "sharded": draw(st.booleans()) if fam == "ds" else False}
+  if o["sharded"]:
+    # the sharded variant applies the previous step's preconditioners: needs >= 2 steps to show anything,
+    # and the exact block-equality clause needs grafting NONE
+    if draw(st.booleans()):
+      o["graft"] = "NONE"
+    if len(steps) < 2:
+      steps = steps + [{"seed": steps[0]["seed"] + 1, "kind": "dense"}]
   return {"fam": fam, "B": B, "n1": n1, "n2": n2, "other": other, "ragged": ragged, "mid": mid, "scales": scales,
           "companions": comps, "steps": steps, "o": o}
 
 
 def shards(tier):
   q = tier == "quick"
-  return [{"name": "ds", "examples": 9 * (24 if q else 300), "workers": 9, "fams": ["ds"]},
-          {"name": "tearfree", "examples": 7 * (26 if q else 300), "workers": 7, "fams": ["tfs", "tf"]}]
+  return [{"name": "ds", "examples": 9 * (19 if q else 300), "workers": 9, "fams": ["ds"]},
+          {"name": "tearfree", "examples": 7 * (22 if q else 300), "workers": 7, "fams": ["tfs", "tf"]}]
 
 
 def strategy(shard):
@@ -136,7 +144,8 @@ def _ds_opt(case):
   return dsh.make_opt({"block_size": case["B"], "beta1": o["beta1"], "beta2": o["beta2"], "matrix_epsilon": o["eps"],
                        "start_preconditioning_step": o["start"], "graft_type": o["graft"], "eigh": o["eigh"],
                        "nesterov": o["nesterov"], "best_effort_shape_interpretation": False,
-                       "precondtioner_type": o["ptype"], "lr": 0.5})
+                       "precondtioner_type": o["ptype"], "lr": 0.5},
+                      "sharded" if o.get("sharded") else "plain", 1)
 
 
 def _tf_opt(case, full):
@@ -157,14 +166,22 @@ def _tf_opt(case, full):
 def _run(opt, params, grads_seq):
   import jax
   import jax.numpy as jnp
+  import contextlib
   p = {k: jnp.asarray(np.asarray(v, np.float32)) for k, v in params.items()}
+  ctx = contextlib.nullcontext()
   state = opt.init(p)
-  upd = jax.jit(opt.update)
+  if hasattr(state, "init_fn"):         # sharded variant: InitFnState, runs under a device mesh
+    from jax.sharding import Mesh
+    ctx = Mesh(np.array(jax.devices()[:1]), ("x",))
+    with ctx:
+      state = state.init_fn(p)
   outs = []
-  for gd in grads_seq:
-    g = {k: jnp.asarray(np.asarray(v, np.float32)) for k, v in gd.items()}
-    u, state = upd(g, state, p)
-    outs.append({k: np.asarray(v, np.float64) for k, v in u.items()})
+  with ctx:
+    upd = jax.jit(opt.update)
+    for gd in grads_seq:
+      g = {k: jnp.asarray(np.asarray(v, np.float32)) for k, v in gd.items()}
+      u, state = upd(g, state, p)
+      outs.append({k: np.asarray(v, np.float64) for k, v in u.items()})
   return outs, state
 
 
@@ -229,6 +246,20 @@ def check(case):
             cs = float(np.dot(a.ravel(), b.ravel()) / (na * nb))
             require(cs >= 1 - 1e-5, "block-direction-collinear",
                     f"{tag}: cos(slice of blocked update, separate update) = {cs:.6f}")
+  # B': the last block entirely on its own (its statistics are then not padded to a larger sibling's size)
+  if fam == "ds" and not grafted:
+    k = len(pblocks) - 1
+    sl = pblocks[k]
+    opt_d = _ds_opt(case)
+    outs_d, _ = _run(opt_d, {"b": padded(x0)[sl]}, [{"b": padded(g)[sl]} for g, _ in seq])
+    for c in range(len(seq)):
+      a, b = padded(outs_a[c]["x"])[sl], outs_d[c]["b"]
+      r = _close(a, b, 2e-5)
+      worst = max(worst, r / 2e-5)
+      require(r <= 2e-5, "blocked-equals-separate-blocks",
+              f"{fam}{'-sharded' if o.get('sharded') else ''} step {c} last block {k} alone (shape {a.shape}, B={case['B']}, "
+              f"scales {case['scales']}): relative difference {r:.3g} between its slice of the blocked update and "
+              f"its update as the only parameter")
   # C: with companions
   changed_max = False
   if case["companions"]:
@@ -251,7 +282,7 @@ def check(case):
         require(r <= 2e-5, "parameter-independent-of-companions",
                 f"{fam} step {c}: update of the parameter changes by {r:.3g} (relative) when companions "
                 f"{[cc['shape'] for cc in case['companions']]} are present")
-      if fam == "ds":
+      if fam == "ds" and not o.get("sharded"):
         # diagnostics (iteration counts, error figures) legitimately depend on the padded problem size
         la = jax.tree.leaves(state_a.stats["x"]._replace(training_metrics=None))
         lc = jax.tree.leaves(state_c.stats["x"]._replace(training_metrics=None))
@@ -260,8 +291,9 @@ def check(case):
           if np.asarray(a).dtype.kind == "f" and np.asarray(a).size and np.all(np.isfinite(np.asarray(a))):
             require(_close(a, b, 2e-5) <= 2e-5, "parameter-state-independent-of-companions",
                     f"ds: a state leaf of the parameter differs by {_close(a, b, 1):.3g} with companions present")
+      if fam == "ds":
         changed_max = max([max(cc["shape"]) for cc in case["companions"]]) > case["B"]
   span = max(case["scales"]) - min(case["scales"])
-  classes = [f"fam={fam}", "rank3" if case.get("mid") else "rank2", "two-axes" if case["n2"] else "one-axis", "ragged" if case["ragged"] else "even",
+  classes = [f"fam={fam}" + ("-sharded" if o.get("sharded") else ""), "rank3" if case.get("mid") else "rank2", "two-axes" if case["n2"] else "one-axis", "ragged" if case["ragged"] else "even",
              "grafted" if grafted else "ungrafted", f"span=1e{span}"]
   return Result(span >= 3 or changed_max, classes, metrics={"tolerance_ratio": worst}, sub=len(seq))
